@@ -33,6 +33,7 @@ theorem nth_mem (l : List Nat) (i : Nat) (h : i < l.length) : nth l i ∈ l := b
 omit [DecidableEq α] in
 theorem availOf_succ (c : Cfg α) (j : Nat) : availOf c (j + 1) = nth c.chunkEnd j := by simp [availOf]
 
+omit [DecidableEq α] in
 theorem pget_id (s : State α) (hPre : InvPre s) (hN : InvN s) (id : Nat) (hp : s.ppc = .got id) :
     (∃ y ∈ s.inq.called, y.2 = id) ∧ ∀ v, s.fut id = some v → v = s.want id := by
   obtain ⟨x, hx, hid⟩ := hPre.got id hp
@@ -42,6 +43,7 @@ theorem pget_id (s : State α) (hPre : InvPre s) (hN : InvN s) (id : Nat) (hp : 
   rw [hid] at this
   exact (hN.n_fut id v hv this).1
 
+omit [DecidableEq α] in
 theorem pget_chunk (c : Cfg α) (s : State α) (hR : InvR c s) (hPre : InvPre s) (hN : InvN s) (id i : Nat)
     (hp : s.ppc = .got id) (hf : s.fut id = some (.chunk i)) (j : Nat) (hPW : PW s = chunks j ++ [s.want id]) :
     i = j ∧ j < c.chunkEnd.length := by
@@ -109,7 +111,14 @@ theorem invP (c : Cfg α) : ∀ s, (machine c).Reachable s → InvP c s := by
          obtain ⟨e1, e2⟩ := pget_chunk c s hR hPre hN _ _ ‹s.ppc = _› ‹s.fut _ = _› j (by simpa [gotW, ‹s.ppc = _›] using hp)
          subst e1; right; exact nth_mem _ _ e2)
       | (subst_vars
+         (try simp only [running_pCont, gotW_pCont])
          simp_all [PW, gotW, running, QueueSM.take_popped, availOf_succ, hfo, hfe, hgo, hge] <;> grind)
+      | (intro _ hd'
+         have hh2 : s.ppc = PPc.popWait := by grind
+         obtain ⟨j, ha, hp⟩ := h1 (by rw [hh2]; rfl) hd'
+         refine ⟨j, ha, ?_⟩
+         simp only [PW, gotW, hh2, QueueSM.take_popped] at hp ⊢
+         cases hi : s.inq.items.head? <;> simp_all [wmap])
       | skip)
 
 end Osmium.Pipeline.ShapeIn
